@@ -36,8 +36,9 @@ type vRecv struct {
 	resent   int64 // bytes transmitted although the receiver already held them
 	requests int
 	faults   int // transmissions that may still fail
-	prev     map[string]string // predecessor announced for each file (last seen)
-	prevBad  bool              // a file was announced with two different predecessors
+	prev      map[string]string // predecessor announced for each file (last seen)
+	prevBad   bool              // a file was announced with a wrong predecessor
+	confirmed map[string]bool   // versions the receiver has confirmed as delivered
 }
 
 func (r *vRecv) held(name string) int64 {
@@ -86,7 +87,13 @@ func (r *vRecv) transmit(p sts.Payload) (int, error) {
 		if r.prev == nil {
 			r.prev = map[string]string{}
 		}
-		if old, ok := r.prev[name]; ok && old != part.GetPrev() {
+		// the newer file names the older one as its predecessor — or nobody,
+		// but only once the receiver has confirmed the older one as delivered
+		// (the sender may then have deleted and forgotten it)
+		switch {
+		case name == "g/a" && part.GetPrev() != "":
+			r.prevBad = true
+		case name == "g/b" && part.GetPrev() != "g/a" && !(part.GetPrev() == "" && r.confirmed["g/a"]):
 			r.prevBad = true
 		}
 		r.prev[name] = part.GetPrev()
@@ -168,6 +175,10 @@ func (r *vRecv) validate(polls []sts.Pollable) ([]sts.Polled, error) {
 		code := sts.ConfirmNone
 		if r.complete(p.GetName()) && r.hash[p.GetName()] == p.GetHash() {
 			code = sts.ConfirmPassed
+			if r.confirmed == nil {
+				r.confirmed = map[string]bool{}
+			}
+			r.confirmed[p.GetName()] = true
 		}
 		out = append(out, &vPolledFile{Pollable: p, code: code})
 	}
@@ -266,7 +277,7 @@ func H_C07_Pipeline(v *verifrt.T) {
 	if two {
 		v.Assert(recv.complete("g/b"), "C07 after a crash at any point and a restart the receiver holds every file")
 		v.Assert(recv.sent == size+3, "C07 every byte of every file is transmitted exactly once")
-		v.Assert(!recv.prevBad && recv.prev["g/a"] == "" && recv.prev["g/b"] == "g/a", "C04 the newer file of a group is announced with the older one as its predecessor, the oldest with none — also when the sender restarted in between")
+		v.Assert(!recv.prevBad, "C04 the newer file of a group is announced with the older one as its predecessor (or with none once the older one is confirmed as delivered), the oldest with none — also when the sender restarted in between")
 		v.Reach("two-files")
 	} else {
 		v.Assert(recv.sent == size, "C07 every byte of the file is transmitted exactly once")
